@@ -664,7 +664,7 @@ def run_shard(desc):
             viols.append(x)
         if not vs and len(samples) < 1 and len(txs) <= 5:
             samples.append({"ledger": lc.brief(txs), "plain_excerpt": o["ok"]["plain"].split("\n")[4:6],
-                            "pdf_runs_excerpt": o["ok"]["pdf_runs"][18:26]})
+                            "pdf_runs_excerpt": (o["ok"].get("pdf_runs") or [])[18:26]})
     return {"evaluations": len(cases) * 3, "nontrivial_hashes": hashes, "counters": cnt, "violations": cap_viols(viols), "samples": samples}
 
 
